@@ -5,28 +5,28 @@ class C33(Spec):
     prop = "C33"
     drv = "drv_c33"
     harness = "h_c33"
-    required_theorems = ("C33.tick_full_false", "C33.denied_tick_full_false", "C33.recovered_paths",
-                         "C33.recvLt_wellformed_total", "C33.tick_total_partial", "C33.node_survives_partial",
-                         "C33.dlReply_total", "C33.dlOld_panic_iff", "C33.reqTick_total_partial")
-    partial = ("C33.recvLt_wellformed_total", "C33.tick_total_partial", "C33.reqTick_total_partial",
-               "C33.deniedTick_total_partial", "C33.node_survives_partial")
-    refuted = ("C33.tick_full_false", "C33.denied_tick_full_false")
+    required_theorems = ("C33.node_survives", "C33.tick_total", "C33.recovered_paths", "C33.recvLt_wellformed_total",
+                         "C33.dlReply_total", "C33.dlReply_checks_height", "C33.dlOld_panic_iff", "C33.reqTick_total",
+                         "C33.old_pend_tick_panicked", "C33.old_denied_tick_panicked", "C33.witnesses_survive")
+    partial = ()
+    refuted = ()
     level_text = ("Lean model of the index and nil logic of every dht receive path as total functions with an explicit panic "
                   "outcome (light block receive + buildPendBlock incl. group expansion, the tick bodies of pendBlockLoop / "
                   "blockRequestLoop / manageDeniedPeer, block request/response peer messages, topic validators, download and "
                   "peer stream handlers, download reply decoding). Theorems: the full statement 'every input in every "
-                  "reachable state leaves the node alive' is refuted by two reachable witnesses (a pooled group expanded past "
-                  "len(Txs) inside pendBlockLoop; a nil queue message dereferenced by manageDeniedPeer when two p2p types are "
-                  "configured); paths under a recover cannot kill the process; under stated invariants (queued blocks have "
-                  "enough hashes and fitting groups, no empty GetBlocks success, no nil message) every input is survived; "
+                  "reachable state leaves the node alive' is proved by an inductive invariant over all input sequences (queued "
+                  "blocks have a hash for every empty slot, no nil message queued); the two former crashes (a pooled group "
+                  "expanded past len(Txs) inside pendBlockLoop; a nil queue message dereferenced by manageDeniedPeer with two p2p "
+                  "types) are kept as regression witnesses over the old definitions; paths under a recover cannot kill the "
+                  "process; "
                   "download reply decoding, the new download handler and the version/peer-info handlers are total; the old "
                   "download handler panics exactly on an absent Message (recovered). Tie: abstract inputs are concretised "
                   "into real protobuf messages / stream frames and pushed through the real functions (receive path with its "
                   "recover, loop bodies stepped tick by tick, validators, handlers behind RegisterStreamHandler), outcome "
                   "compared line by line with the model; byte-level mutants go through the abstraction function; which "
                   "functions carry a deferred recover and whether the stepped loop bodies equal the production ones is "
-                  "re-read from the source (go/ast) on every run; both witnesses are also run in a child process with the "
-                  "production goroutines and observed to exit.")
+                  "re-read from the source (go/ast) on every run; both former crash inputs are also run in a child process with the "
+                  "production goroutines, which must survive.")
     level_note = ("partial: libp2p / gossipsub / protobuf / snappy internals and memory exhaustion (txCount between 2^16 and "
                   "2^45 really allocates) are not modelled; the local mempool and blockchain modules are scripted (one reply "
                   "entry per requested hash; GetBlocks error or n items); the block filter is modelled unbounded (real LRU "
